@@ -167,6 +167,62 @@ pub trait Sut {
     }
     /// is this state non-trivial (for the evidence count)?
     fn nontrivial(&self, state: &[u8]) -> bool;
+    /// size in bytes of one trailing record / slot of the buffer, if the collection has such (C05: operations on a
+    /// buffer that is *shorter* than its header claims may panic but must not touch memory outside it)
+    fn record_bytes(&self) -> Option<usize> {
+        None
+    }
+}
+
+/// C05 on mis-sized buffers: the state with its last one / two records cut off (the header still claims them).
+/// Every operation is executed twice between different guard patterns; it may panic (a bounds check), but the
+/// guards must stay intact and results and bytes must not depend on the adjacent memory.
+fn missized_probe(sut: &dyn Sut, pre: &[u8], findings: &mut Vec<Finding>, st: &mut Stats) {
+    let Some(rb) = sut.record_bytes() else { return };
+    if rb == 0 {
+        return;
+    }
+    for cut in 1..=2usize {
+        if pre.len() < cut * rb + 1 {
+            break;
+        }
+        let short = &pre[..pre.len() - cut * rb];
+        let all_ops = sut.ops(pre);
+        let stride = std::cmp::max(1, all_ops.len() / 48);
+        for op in all_ops.into_iter().step_by(stride) {
+            if matches!(op.name, "ext" | "fill" | "bulk" | "bulkrem" | "dlen" | "init") {
+                continue;
+            }
+            if let Ok(j) = std::env::var("VERIF_JOURNAL_PROBE") {
+                let _ = std::fs::write(j, format!("# the buffer is {} record(s) shorter than its header claims\nstate x{}\n{}\n", cut, hex(short), op.text()));
+            }
+            let mut a = ABuf::new_skewed(short, cut % 3, 0xA5, sut.skew());
+            let out_a = sut.apply(&mut a, &op);
+            let mut b = ABuf::new_skewed(short, (cut + 1) % 3 + 1, 0x3C, sut.alt_skew());
+            let out_b = sut.apply(&mut b, &op);
+            st.bump("missized:ops");
+            if out_a.panic.is_some() {
+                st.bump("missized:panics");
+            }
+            if !a.guards_ok() || !b.guards_ok() {
+                findings.push(Finding {
+                    property: "C05",
+                    what: format!("bytes outside the buffer modified by `{}` on a buffer {} record(s) shorter than its header claims", op.text(), cut),
+                });
+                return;
+            }
+            if out_a.result != out_b.result || a.bytes() != b.bytes() {
+                findings.push(Finding {
+                    property: "C05",
+                    what: format!(
+                        "`{}` on a buffer {} record(s) shorter than its header claims depends on adjacent memory: {:?} vs {:?}",
+                        op.text(), cut, out_a.result, out_b.result
+                    ),
+                });
+                return;
+            }
+        }
+    }
 }
 
 #[derive(Default)]
@@ -220,11 +276,12 @@ pub struct Limits {
     pub max_states: usize,
     pub max_transitions: usize,
     pub max_findings: usize,
+    pub missized: bool,
 }
 
 impl Default for Limits {
     fn default() -> Self {
-        Limits { max_states: 400_000, max_transitions: 6_000_000, max_findings: 20 }
+        Limits { max_states: 400_000, max_transitions: 6_000_000, max_findings: 20, missized: false }
     }
 }
 
@@ -325,6 +382,17 @@ pub fn bfs(sut: &dyn Sut, out: &mut dyn Write, limits: &Limits) -> Stats {
         let ops = if next == 0 && sut.init_op().is_some() { vec![sut.init_op().unwrap()] } else { sut.ops(&pre) };
         if sut.nontrivial(&pre) {
             st.nontrivial_states += 1;
+        }
+        if next % 5 == 1 && limits.missized {
+            let mut f = vec![];
+            missized_probe(sut, &pre, &mut f, &mut st);
+            for fi in f {
+                if st.room(fi.property, limits.max_findings) {
+                    let mut h = history_of(&parents, next);
+                    h.push("# then the buffer is cut short (see the finding)".to_string());
+                    st.findings.push((fi, h));
+                }
+            }
         }
         for op in ops {
             if st.transitions >= limits.max_transitions {
@@ -445,6 +513,17 @@ pub fn random(
             for fi in f {
                 if st.room(fi.property, limits.max_findings) {
                     st.findings.push((fi, hist.clone()));
+                }
+            }
+            if limits.missized && step % 150 == 7 {
+                let mut f2 = vec![];
+                missized_probe(sut, &post, &mut f2, &mut st);
+                for fi in f2 {
+                    if st.room(fi.property, limits.max_findings) {
+                        let mut h = hist.clone();
+                        h.push("# then the buffer is cut short (see the finding)".to_string());
+                        st.findings.push((fi, h));
+                    }
                 }
             }
             let panicked = o.panic.is_some();
